@@ -1098,6 +1098,23 @@ def fam_deep(rng):
   return dict(family="deep", value=v, schema=s)
 
 
+def fam_paths(rng):
+  """An offending leaf (type / bound / length error - the validators whose error reports the path to the value) under keys and indices of
+  every shape: empty string, digits, spaces, quotes, non-ASCII, array positions - at depth 1-3."""
+  leaf_s, leaf_v = rng.choice([({"type": "integer"}, "three"), ({"type": "string"}, 3), ({"type": ["integer", "null"]}, 1.5), ({"minimum": 2}, 1),
+                               ({"maximum": 2}, 3), ({"exclusiveMinimum": 2}, 2), ({"minLength": 3}, "ab"), ({"maxLength": 1}, "ab"),
+                               ({"minItems": 2}, [1]), ({"maxItems": 0}, [1]), ({"type": "object"}, [])])
+  s, v = leaf_s, leaf_v
+  for _ in range(rng.randint(1, 3)):
+    if rng.random() < 0.3:
+      k = rng.randint(0, 2)
+      s, v = {"type": "array", "items": s}, [copy.deepcopy(v)] * (k + 1)
+    else:
+      key = rng.choice(["", "", "0", "1st", " ", "a.b", "a b", "it's", "é", "[0]", "k", "_", "-1", "1e3", "\t"])
+      s, v = {"type": "object", "properties": {key: s}}, {key: v}
+  return dict(family="paths", value=v, schema=s)
+
+
 def fam_draft4(rng):
   props = {k: rng.choice([{"type": "integer"}, {"type": "number", "minimum": 0, "exclusiveMinimum": True}, {"type": "string", "maxLength": 2},
                           {"type": "number", "maximum": 5, "exclusiveMaximum": rng.random() < 0.5}]) for k in rng.sample(KEYS, rng.randint(1, 3))}
@@ -1149,7 +1166,7 @@ def search(ctx, hints, broken):
     elif r < 8:
       inp = fam_targeted(rng, ("required", "additional", "type")[r - 5])
     elif r == 8:
-      inp = fam_draft4(rng)
+      inp = fam_draft4(rng) if i % 20 == 8 else fam_paths(rng)
     else:
       inp = fam_deep(rng) if i % 50 == 9 else fam_targeted(rng, rng.choice(["required", "additional", "type"]))
     if i < 2:
